@@ -366,6 +366,25 @@ def run(res, tier):
         nguard += len(ex.guarded) + len(ex.unguarded)
         toptree_state(facts, cls, res)
     res.floor("C12.1", nguard, 30, "guarded stage calls")
+    # a staged run is ordered by the barrier that ends each execute(); a call that carries several flags is ordered only by the
+    # dependencies of its tasks: they must cover what the tasks read and write, or "several flags in one call" differs from "one flag per call"
+    res.rule("C12.6 several flags in one call = one flag per call: in the OpenMP and Specx executors every task declares a dependency on every block it reads or writes that some task writes (rule C03.b, same engine)")
+    import c03
+    import taskdeps
+    n6 = 0
+    for unit, pairs in (("core", c03.PAIRS), ("specx", c03.SPECX_PAIRS)):
+        f6 = tbf.scan(unit)
+        cmap = effects.container_map(f6)
+        weff = effects.wrapper_effects(f6, cmap)
+        sub = tbf.Result("C03")
+        for cls6, _ref in pairs:
+            ex6 = stages.ExecutorSummary(f6, cls6)
+            for name6, st6 in ex6.stages.items():
+                n6 += taskdeps.check_stage(st6, weff, cmap, sub)
+        for v in sub.violations:
+            res.violation("C12.6.flags-in-one-call", v["file"], v["function"], v["key"], v["line"], v["msg"] + ": within one execute() nothing else orders this task with the stage that produces / consumes the block, so a call carrying both flags gives another tree state than two calls")
+    res.instance("C12.6.flags-in-one-call", "task units", "umbrella 'core' + 'specx'", "%d task units: dependencies cover effects" % n6)
+    res.floor("C12.6", n6, 20, "task units with wrapper calls")
     if tier in ("quick", "thorough"):      # the Specx / StarPU executors (declaration stubs) are analysed on every run: the unit tests never compile them, so nothing else would notice a change there
         sf = tbf.scan("specx")
         res.units.append("umbrella TU 'specx' (declaration-only Specx stub)")
